@@ -5,10 +5,12 @@ apart from the baseline's always-fail entries) and copy the confirmed ones to se
 import json, os, shutil, subprocess, sys
 V = os.path.dirname(os.path.dirname(os.path.abspath(__file__)))
 pid, wt, outdir, tests = sys.argv[1], sys.argv[2], sys.argv[3], sys.argv[4:]
+EXTRA = os.environ.get("CONFIRM_PYTEST_ARGS", "")      # e.g. -k 'not asserstein' to skip the slow unrelated LOT tests
 ALWAYS_FAIL = ("test_wasserstein_based_vectorizer_bad_params[lil-LOT_exact",)
 
 def sh(cmd, **kw):
-    return subprocess.run(cmd, shell=True, stdout=subprocess.PIPE, stderr=subprocess.STDOUT, text=True, **kw)
+    env = dict(os.environ, OMP_NUM_THREADS="1", OPENBLAS_NUM_THREADS="1", MKL_NUM_THREADS="1", NUMBA_NUM_THREADS="2")
+    return subprocess.run(cmd, shell=True, stdout=subprocess.PIPE, stderr=subprocess.STDOUT, text=True, env=env, **kw)
 
 def demo(d):
     return sh("cd %s && PYTHONPATH=%s PYTHONHASHSEED=0 timeout 1200 /venv/bin/python %s/demo.py" % (wt, wt, d))
@@ -26,7 +28,7 @@ for i in sorted(os.listdir(outdir)):
         r = demo(d); log["demo_patched_exit"] = r.returncode; log["demo_patched_tail"] = r.stdout[-400:]
         ok = r.returncode != 0
     if ok:
-        t = sh("cd %s && PYTHONPATH=%s timeout 5400 /venv/bin/python -m pytest -q -p no:cacheprovider -x --deselect 'vectorizers/tests/test_common.py::test_wasserstein_based_vectorizer_bad_params' %s" % (wt, wt, " ".join("vectorizers/tests/" + x for x in tests)))
+        t = sh("cd %s && PYTHONPATH=%s timeout 5400 /venv/bin/python -m pytest -q -p no:cacheprovider -x --deselect 'vectorizers/tests/test_common.py::test_wasserstein_based_vectorizer_bad_params' %s %s" % (wt, wt, " ".join("vectorizers/tests/" + x for x in tests), EXTRA))
         log["tests_tail"] = t.stdout[-300:]; log["tests_exit"] = t.returncode
         ok = t.returncode == 0
     sh("git -C %s checkout -- ." % wt)
@@ -39,5 +41,5 @@ for i in sorted(os.listdir(outdir)):
             shutil.copy(os.path.join(d, f), dst)
         meta = json.load(open(os.path.join(d, "meta.json")))
         meta["confirmed_by_me"] = {"worktree": wt, "demo_clean_exit": 0, "demo_patched_exit": log["demo_patched_exit"],
-                                   "tests": tests, "tests_exit": 0, "tests_tail": log["tests_tail"][-200:]}
+                                   "tests": tests, "pytest_extra_args": EXTRA, "tests_exit": 0, "tests_tail": log["tests_tail"][-200:]}
         json.dump(meta, open(os.path.join(dst, "meta.json"), "w"), indent=1)
